@@ -60,7 +60,7 @@ class SpecCtx:
 
 
 def check_function(I, target, build, spec, F, name, result_name="result", state_names=None,
-                   drop_contracts=(), merge_defs=True, structural=True):
+                   drop_contracts=(), merge_defs=True, structural=True, assume=()):
     """target: qualname of a function/method in the repo or a callable thunk
     taking the built inputs.  build() -> (args list, kwargs dict) of fresh
     symbolic inputs (called several times; must be deterministic).
@@ -93,7 +93,7 @@ def check_function(I, target, build, spec, F, name, result_name="result", state_
                 return ("ok",) + thunk2()
             except PyRaise as e:
                 return ("raise", holder.get("ins"), e)
-        results = I.run_paths(thunk_raise_capture)
+        results = I.run_paths(thunk_raise_capture, base_assumptions=assume)
     except (ModelError, PathsExceeded) as e:
         T.SIDE = None
         I.no_contract = saved_nc
@@ -109,11 +109,11 @@ def check_function(I, target, build, spec, F, name, result_name="result", state_
     for pi, (pc, (_k, payload)) in enumerate(results):
         kind, ins, res = payload
         suffix = "" if len(results) == 1 else ".path%d" % pi
-        ctx = SpecCtx(pc)
+        ctx = SpecCtx(list(pc) + list(assume))
         sargs, skwargs = build()
         try:
             saved_assumed = I.assumed
-            I.assumed = set(pc)
+            I.assumed = set(pc) | set(assume)
             try:
                 exp = ("ok", spec(ctx, *sargs, **skwargs))
             finally:
